@@ -310,4 +310,72 @@ theorem toLit_sound (e : Expr) : WSh e = true →
     have hk' : k < m' := by simpa using hk
     rw [hA'.2 i k (by rw [hmn]; exact ⟨hr.1, hk'⟩), hB'.2 k j (by rw [hmn']; exact ⟨hk', hr2⟩)]
 
+theorem evL_replicate (e : Expr) : ∀ (n i : Nat), i < n → evL o ρ (List.replicate n e) i = ev o ρ e 0 0
+  | 0, _, h => by omega
+  | n + 1, 0, _ => by simp [List.replicate, evL]
+  | n + 1, i + 1, h => by
+      simp only [List.replicate, evL]
+      exact evL_replicate e n i (by omega)
+
+/-- `broadcast_expr`: every entry of the broadcast scalar is the scalar -/
+theorem broadcast_vec (e : Expr) (n i j : Nat) (h : i < n) : ev o ρ (broadcast e [n]) i j = ev o ρ e 0 0 := by
+  simp only [broadcast, ev]; exact evL_replicate o ρ e n i h
+
+theorem broadcast_mat (e : Expr) (m n i j : Nat) (hi : i < m) (hj : j < n) :
+    ev o ρ (broadcast e [m, n]) i j = ev o ρ e 0 0 := by
+  have hk : i * n + j < m * n := by
+    calc i * n + j < i * n + n := by omega
+      _ = (i + 1) * n := by rw [Nat.add_mul, Nat.one_mul]
+      _ ≤ m * n := Nat.mul_le_mul_right n hi
+  simp only [broadcast, ev]; exact evL_replicate o ρ e (m * n) _ hk
+
+/-- `OperExpr` on a scalar and a vector (either order): entrywise operation with the scalar -/
+theorem operExpr_scalar_vec (op : Op) (x y : Expr) (n i : Nat) (hx : shape x = []) (hy : shape y = [n]) (hi : i < n) :
+    ev o ρ (operExpr op x y) i 0 = o.bin op (ev o ρ x 0 0) (ev o ρ y i 0)
+    ∧ ev o ρ (operExpr op y x) i 0 = o.bin op (ev o ρ y i 0) (ev o ρ x 0 0) := by
+  constructor
+  · simp [operExpr, isScalar, hx, hy, ev, broadcast_vec o ρ x n i 0 hi]
+  · simp [operExpr, isScalar, hx, hy, ev, broadcast_vec o ρ x n i 0 hi]
+
+theorem operExpr_scalar_mat (op : Op) (x y : Expr) (m n i j : Nat) (hx : shape x = []) (hy : shape y = [m, n])
+    (hi : i < m) (hj : j < n) :
+    ev o ρ (operExpr op x y) i j = o.bin op (ev o ρ x 0 0) (ev o ρ y i j)
+    ∧ ev o ρ (operExpr op y x) i j = o.bin op (ev o ρ y i j) (ev o ρ x 0 0) := by
+  constructor
+  · simp [operExpr, isScalar, hx, hy, ev, broadcast_mat o ρ x m n i j hi hj]
+  · simp [operExpr, isScalar, hx, hy, ev, broadcast_mat o ρ x m n i j hi hj]
+
+/-- `inner(x, y)` for vectors, `tr(A)`: the defining sums (in Python's `reduce` association) -/
+theorem inner_vec_sound (x y : Expr) (n : Nat) (hx : shape x = [n]) :
+    ev o ρ (innerE x y) 0 0 = reduceAddV o ((List.range n).map fun i => o.mul (ev o ρ x i 0) (ev o ρ y i 0)) := by
+  simp [innerE, hx, ev_reduceAdd, List.map_map, Function.comp_def, ev, Ops.bin, at_sound_aux]
+
+theorem inner_mat_sound (x y : Expr) (m n : Nat) (hx : shape x = [m, n]) :
+    ev o ρ (innerE x y) 0 0 = reduceAddV o ((List.range (m * n)).map fun k =>
+      o.mul (ev o ρ x (k / n) (k % n)) (ev o ρ y (k / n) (k % n))) := by
+  simp [innerE, hx, ev_reduceAdd, List.map_map, Function.comp_def, ev, Ops.bin, at_sound_aux]
+
+theorem tr_sound (A : Expr) :
+    ev o ρ (trE A) 0 0 = reduceAddV o ((List.range (len A)).map fun i => ev o ρ A i i) := by
+  simp [trE, ev_reduceAdd, List.map_map, Function.comp_def, at_sound_aux]
+
+/-- slices `e[i,:]`, `e[:,j]` and `ravel` -/
+theorem row_sound (e : Expr) (i j : Nat) (hj : j < ncols e) : ev o ρ (rowE e i) j 0 = ev o ρ e i j := by
+  simp [rowE, ev, evL_map_range, hj, at_sound_aux]
+
+theorem col_sound (e : Expr) (i j : Nat) (hi : i < len e) : ev o ρ (colE e j) i 0 = ev o ρ e i j := by
+  simp [colE, ev, evL_map_range, hi, at_sound_aux]
+
+theorem ravel_sound (e : Expr) (i j : Nat) (hi : i < len e) (hj : j < ncols e) :
+    ev o ρ (ravelE e) (i * ncols e + j) 0 = ev o ρ e i j := by
+  have hk : i * ncols e + j < len e * ncols e := by
+    calc i * ncols e + j < i * ncols e + ncols e := by omega
+      _ = (i + 1) * ncols e := by rw [Nat.add_mul, Nat.one_mul]
+      _ ≤ len e * ncols e := Nat.mul_le_mul_right _ hi
+  have hd : (i * ncols e + j) / ncols e = i := by
+    rw [Nat.add_comm, Nat.add_mul_div_right _ _ (by omega : 0 < ncols e), Nat.div_eq_of_lt hj, Nat.zero_add]
+  have hm : (i * ncols e + j) % ncols e = j := by
+    rw [Nat.add_comm, Nat.add_mul_mod_self_right, Nat.mod_eq_of_lt hj]
+  simp [ravelE, ev, evL_map_range, hk, hd, hm, at_sound_aux]
+
 end Pyiga.VForm
